@@ -274,6 +274,10 @@ struct BigInt {
             --index;
             Add(DoubleSize<Number_T, TypeWidth()>::Multiply(storage_[index], multiplier), (index + 1U));
         } while (index != 0U);
+
+        while ((index_ > 0U) && (storage_[index_] == 0)) {
+            --index_; // multiplied by zero.
+        }
     }
     ////////////////////////////////////////////////////
     inline Number_T Divide(const Number_T divisor) noexcept {
@@ -374,7 +378,7 @@ struct BigInt {
                 storage_[move] = 0;
             } while (move != 0U);
 
-            while (storage_[index] == 0) {
+            while ((index != 0U) && (storage_[index] == 0)) {
                 --index;
             }
 
@@ -404,11 +408,11 @@ struct BigInt {
     inline SizeT32 FindFirstBit() const noexcept {
         SizeT32 index = 0U;
 
-        while ((storage_[index] == 0) && (index <= index_)) {
+        while ((index < index_) && (storage_[index] == 0)) {
             ++index;
         }
 
-        return (Platform::FindFirstBit(storage_[index_]) + (index * TypeWidth()));
+        return (Platform::FindFirstBit(storage_[index]) + (index * TypeWidth()));
     }
 
     inline SizeT32 FindLastBit() const noexcept {
@@ -516,7 +520,12 @@ struct BigInt {
 
             case BigIntOperation::And: {
                 storage_[0U] &= number;
-                index_ = 0U;
+
+                while (index_ != 0U) {
+                    storage_[index_] = 0;
+                    --index_;
+                }
+
                 break;
             }
 
@@ -549,7 +558,6 @@ struct BigInt {
 
             case BigIntOperation::And: {
                 storage_[0U] &= Number_T(number);
-                index_ = 0U;
                 break;
             }
 
@@ -558,6 +566,8 @@ struct BigInt {
                 index_       = 0U;
             }
         }
+
+        SizeT32 and_index = 1U; // First word not covered by the operand (And only).
 
         if QENTEM_CONST_EXPRESSION (is_bigger_size) {
             SizeT32 index = 1U;
@@ -586,10 +596,8 @@ struct BigInt {
                     }
 
                     case BigIntOperation::And: {
-                        storage_[index] &= Number_T(number);
-
-                        if (storage_[index] != Number_T(0)) {
-                            index_ = index;
+                        if (index <= index_) {
+                            storage_[index] &= Number_T(number);
                         }
 
                         break;
@@ -603,6 +611,20 @@ struct BigInt {
 
                 number >>= TypeWidth();
                 ++index;
+            }
+
+            and_index = index;
+        }
+
+        if (Operation == BigIntOperation::And) {
+            // Every word above the operand is and-ed with zero, then the index moves to the highest non-zero word.
+            while ((index_ >= and_index) && (index_ != 0U)) {
+                storage_[index_] = 0;
+                --index_;
+            }
+
+            while ((index_ != 0U) && (storage_[index_] == 0)) {
+                --index_;
             }
         }
     }
@@ -743,14 +765,10 @@ struct DoubleSize<Number_T, 64U> {
         dividend_high += carry;
         // -----------------------
         if (original_dividend_high > dividend_high) {
-            // Overflow
-            constexpr Number_T overflow_dividend = (Number_T{1} << (width_ - 1U));
-
-            dividend_high += ((overflow_dividend % (divisor >> 1U)) << 1U);
+            // Overflow: the true sum is (2^64 + dividend_high), and it lies in [divisor, 2 * divisor).
+            dividend_high -= divisor;
             ++dividend_low;
-        }
-
-        if (dividend_high >= divisor) {
+        } else if (dividend_high >= divisor) {
             dividend_high -= divisor;
             ++dividend_low;
         }
